@@ -33,7 +33,7 @@ def make_dir(rng, root):
     count = [0]
 
     def fill(path, depth):
-        k = rng.choice([0, 1, 2, 3, 4, 6]) if depth else rng.randint(1, 6)
+        k = rng.choice([0, 1, 2, 3, 4, 6]) if depth else rng.choice([0, 1, 2, 3, 4, 5, 6, 1, 2, 3, 4, 5, 6])  # also an empty root folder
         names = rng.sample(NAMES, min(k, len(NAMES)))
         for nm in names:
             p = os.path.join(path, nm)
@@ -191,6 +191,10 @@ def run_case(case, res):
                 bad.append("Path argument gives a different listing")
             # round trip through save/load with the class mappers
             pth = os.path.join(tmp, "tree.json")
+            if case["seed"] % 3 == 0:
+                # the snapshot file exists already (an earlier, much larger scan was saved under the same name)
+                with open(pth, "wb") as _fp:
+                    _fp.write(b'{"meta": {"$generator": "nutree/0"}, "nodes": [[0, {"n": "stale", "d": true}]]}\n' * 3000)
             t.save(pth, mapper=FileSystemTree.serialize_mapper)
             fm = _LONG_LIVED_FILE_META if case["seed"] % 2 else {}
             if case["seed"] % 2:
